@@ -29,7 +29,7 @@ ASSUMPTIONS = [
     "on rejection only the raised exception is observed (the partially written database is not inspected)",
 ]
 
-LINEKINDS = ("id", "name", "both", "neither", "two_ids", "empty_id")
+LINEKINDS = ("id", "name", "both", "neither", "two_ids", "empty_id", "no_attrs")        # no_attrs: the ninth column is empty
 PATTERNS = (("gene", "gene", "gene", "gene"), ("gene", "mRNA", "gene", "mRNA"), ("exon", "exon", "gene", "exon"),
             ("mRNA", "gene", "exon", "gene"))
 
@@ -122,7 +122,7 @@ def body_gff3(ch, ctx):
     sname, spec = SPECS[si]
     nlines = 3 if ctx.tier == "quick" else 4
     pattern = PATTERNS[pi]
-    feats, texts = [], []
+    feats, texts, file_texts = [], [], []
     kinds = []
     for i in range(nlines):
         kind = ch.choose("line%d" % i, LINEKINDS)
@@ -137,7 +137,8 @@ def body_gff3(ch, ctx):
             attrs["Name"] = ["n%d" % i]
         if kind in ("name", "both"):
             attrs["Name"] = ["n%d" % i]
-        attrs["tag"] = ["t%d" % i]
+        if kind != "no_attrs":
+            attrs["tag"] = ["t%d" % i]
         cols = dict(seqid="c%d" % i, source="s%d" % i, start=10 * i, end=10 * i + 5, strand="+-.+"[i])
         ft = pattern[i]
         feats.append((ft, cols, attrs))
@@ -145,6 +146,9 @@ def body_gff3(ch, ctx):
                 [k for k in ("ID", "Name", "tag") if k in attrs]
         texts.append("\t".join([cols["seqid"], cols["source"], ft, str(cols["start"]), str(cols["end"]), ".", cols["strand"], ".",
                                 ";".join("%s=%s" % (k, ",".join(_ENC(v) for v in attrs[k])) for k in order)]))
+        # what goes into the file: odd lines write their two ID values by repeating the key (ID=a;ID=b) instead of a comma list
+        file_texts.append(texts[-1] if not (kind == "two_ids" and i % 2) else
+                          texts[-1].replace("ID=%s" % ",".join(_ENC(v) for v in attrs["ID"]), ";".join("ID=%s" % _ENC(v) for v in attrs["ID"])))
         feats[-1] = (ft, cols, {k: v for k, v in attrs.items()})
     try:
         exp = ref_ids("ID" if spec is None else spec, feats)
@@ -155,7 +159,7 @@ def body_gff3(ch, ctx):
     ctx.outcome((sname, exp is None, tuple(k for k in kinds)))
     sig = dict(spec=sname)
     wd = ctx.fresh_dir()
-    path = dbutil.write_text(wd, "in.gff", "\n".join(texts) + "\n")
+    path = dbutil.write_text(wd, "in.gff", "\n".join(file_texts) + "\n")
     dbfn = os.path.join(wd, "o.db") if ch.flag("file_db") else ":memory:"
     try:
         db = gffutils.create_db(path, dbfn, id_spec=spec, verbose=False)
@@ -173,18 +177,20 @@ def body_gff3(ch, ctx):
     if not ctx.check(ids == exp, "keys-differ-from-id_spec", sig, lines=texts, got=ids, expected=exp):
         return
     ctx.check(len(set(ids)) == len(ids), "keys-not-unique", sig, ids=ids)
-    for key, text, f in zip(exp, texts, feats_db):
+    for key, text, ftext, f in zip(exp, texts, file_texts, feats_db):
         text = text.replace(";ID=;", ";ID;")      # an empty 'ID=' is printed as a valueless flag (print round trip is C07's business)
+        # (two values print as a comma list or as a repeated key, whichever the file's dialect says: also C07's business)
+        ok_texts = (text, ftext)
         g = db[key]
-        ctx.check(g.id == key and str(g) == text and str(db[f]) == text, "lookup-returns-other-feature", sig,
+        ctx.check(g.id == key and str(g) in ok_texts and str(db[f]) in ok_texts, "lookup-returns-other-feature", sig,
                   key=key, line=text, got=str(g))
         # what a look-up returns is the caller's own copy: editing it does not change later look-ups
         g.start = 999
         g.attributes["edited"] = ["1"]
         h = db[key]
-        ctx.check(str(h) == text and h is not g, "lookup-reflects-edits-of-an-earlier-result", sig, key=key, line=text, got=str(h))
+        ctx.check(str(h) in ok_texts and h is not g, "lookup-reflects-edits-of-an-earlier-result", sig, key=key, line=text, got=str(h))
     # look-up by a Feature object that comes from ANOTHER database of the same annotation (other line order)
-    path_rev = dbutil.write_text(wd, "rev.gff", "\n".join(reversed(texts)) + "\n")
+    path_rev = dbutil.write_text(wd, "rev.gff", "\n".join(reversed(file_texts)) + "\n")
     try:
         other = gffutils.create_db(path_rev, ":memory:", id_spec=spec, verbose=False)
     except Exception:
@@ -287,6 +293,15 @@ def body_gtf(ch, ctx):
         except FeatureNotFoundError:
             ok = False
         ctx.check(ok, "lookup-returns-other-feature", sig, key=key, line=text)
+    if sname == "default":
+        # a later update() naming its own id_spec: the new exon is keyed by its exon_id, not by the default for GTF databases
+        later = dbutil.write_text(wd, "later.gtf", 'c9\ts\texon\t500\t510\t.\t+\t.\tgene_id "g9"; transcript_id "t9"; exon_id "E9";\n')
+        db.update(later, id_spec={"exon": "exon_id"}, make_backup=False, verbose=False, disable_infer_genes=True, disable_infer_transcripts=True)
+        try:
+            ok = (db["E9"].start, db["E9"].end) == (500, 510)
+        except FeatureNotFoundError:
+            ok = False
+        ctx.check(ok, "keys-differ-from-id_spec", dict(sig, after_update=True), got=[f.id for f in db.all_features()][-3:], expected="E9")
     if sname in ("callable", "force_gff"):
         for raw in ("g0", "t0", "g1", "t1"):
             if raw in exp or raw in got_derived:
